@@ -121,6 +121,12 @@ type Scenario struct {
 	// ProbePiece > 0 delivers every reply of those connections in pieces of that many bytes
 	Info       func(addr string) (*redis.Info, error)
 	ProbePiece int
+	// RealBoot: the proxy is started by the REAL serve() / engine.start() with seed pools for Seeds (redis.servers) and,
+	// with Preconnect, connections opened before the loop runs; no topology is injected - the first one arrives through the
+	// real probe path, so the scenario needs RefreshLoop and at least one 1 s TICK before traffic
+	RealBoot   bool
+	Seeds      []string
+	Preconnect bool
 	NoVariant  bool // never run this scenario as a configuration variant (multi-megabyte inputs: debug lines walk every byte)
 	DebugLog   bool // log level "debug": Debug lines are formatted and Debug closures evaluated
 	SlowlogMs  int  // > 0: slow-log threshold in milliseconds (RedisSlowlogSlowerThan)
@@ -454,6 +460,29 @@ func ExecuteWith(sc *Scenario, choose vsys.Chooser, boot func(w *World)) *World 
 		}
 		if sc.RefreshLoop {
 			w.barrier = make(chan string, 8)
+		}
+		if sc.RealBoot {
+			w.Opts.RedisServers = strings.Join(sc.Seeds, ",")
+			w.Opts.RedisPreconnect = sc.Preconnect
+			vw, err := core.VerifBootReal(w.Handler, w.Ln.Fd, w.Opts)
+			if err != nil {
+				w.RunErr = err
+				return
+			}
+			w.VW = vw
+			if !sc.NoBootTick {
+				if p := vw.VerifTicker(); p != nil {
+					w.notePanic(p, "")
+				}
+			}
+			if sc.AfterBoot != nil {
+				sc.AfterBoot(w)
+			}
+			if sc.RefreshLoop {
+				w.refreshDone = core.VerifRunRefreshLoop(&w.refreshPanic)
+				w.goBase = runtime.NumGoroutine()
+			}
+			return
 		}
 		vw, err := core.VerifBoot(w.Handler, w.Ln.Fd, w.Opts, NodesText(sc.Nodes), func(addr string) (*redis.Info, error) {
 			if strings.HasPrefix(addr, "10.255.") {
@@ -1301,6 +1330,16 @@ type probePeer struct {
 }
 
 func (w *World) redisDial(addr string) (vsys.RedisPeer, error) {
+	if strings.HasPrefix(addr, "10.255.") {
+		// the harness's barrier node (real boot: the refresh goroutine uses the real redis client for every address)
+		if w.refreshKill {
+			runtime.Goexit()
+		}
+		if w.barrier != nil {
+			w.barrier <- addr
+		}
+		return nil, fmt.Errorf("dial tcp %s: barrier", addr)
+	}
 	if w.Down[addr] {
 		return nil, fmt.Errorf("dial tcp %s: connect: connection refused", addr)
 	}
